@@ -12,3 +12,46 @@ package fs
 //@   ensures[C11] forall k :: 0 <= k && k < len(data) ==> data[k] == ((0xF70 <= start + k && start + k < 0x1070) ? 0 : old(data[k])) @masked
 //@   loop 1 invariant forall k :: 0 <= k && k < len(data) ==> data[k] == ((0xF70 <= start + k && start + k < 0x1070 && k < i) ? 0 : old(data[k])) @masked-prefix
 //@   loop 1 decreases min(0x1070, start + len(data)) - start - i
+
+// ---- 3k3y masking view (C11, C04) --------------------------------------------------------------
+
+//@ pred masked3k3y(x int) := 0xF70 <= x && x < 0x1070
+//@ pred wf3k3y(iso *ISO3k3y) := iso != nil && iso.privateFile != nil && iso.offset == fpos[iso.privateFile]
+
+//@ func NewISO3k3y results(ret0, err)
+//@   tags C04,C11,C13
+//@   requires f != nil
+//@   modifies fpos[f], iofaults
+//@   ensures iofaults >= old(iofaults)
+//@   ensures err == nil ==> ret0 != nil && fresh(ret0) && ret0.privateFile == f && wf3k3y(ret0) && fpos[f] == old(fpos[f])
+//@   ensures err != nil ==> ret0 == nil
+//@   ensures[C13] fopen == old(fopen)
+
+//@ func ISO3k3y.ReadAt results(n, err)
+//@   tags C04,C11
+//@   requires iso != nil && iso.privateFile != nil
+//@   modifies elems(b), iofaults
+//@   ensures iofaults >= old(iofaults)
+//@   ensures 0 <= n && n <= len(b)
+//@   ensures[C11] forall k :: 0 <= k && k < n ==> b[k] == (masked3k3y(off + k) ? 0 : fcontent[iso.privateFile][off + k]) @view
+//@   ensures n > 0 ==> off >= 0 && off + n <= fsize[iso.privateFile]
+//@   ensures n < len(b) ==> err != nil
+
+//@ func ISO3k3y.Read results(n, err)
+//@   tags C04,C11
+//@   requires wf3k3y(iso)
+//@   modifies elems(b), iofaults, fpos[iso.privateFile], iso.offset
+//@   ensures iofaults >= old(iofaults)
+//@   ensures wf3k3y(iso)
+//@   ensures 0 <= n && n <= len(b) && fpos[iso.privateFile] == old(fpos[iso.privateFile]) + n
+//@   ensures[C11] forall k :: 0 <= k && k < n ==> b[k] == (masked3k3y(old(iso.offset) + k) ? 0 : fcontent[iso.privateFile][old(iso.offset) + k]) @view
+//@   ensures n == 0 && len(b) > 0 ==> err != nil
+
+//@ func ISO3k3y.Seek results(pos, err)
+//@   tags C04,C11
+//@   requires wf3k3y(iso)
+//@   modifies fpos[iso.privateFile], iso.offset, iofaults
+//@   ensures iofaults >= old(iofaults)
+//@   ensures wf3k3y(iso)
+//@   ensures err == nil ==> pos == fpos[iso.privateFile] && pos >= 0
+//@   ensures err != nil ==> fpos[iso.privateFile] == old(fpos[iso.privateFile])
